@@ -79,8 +79,10 @@ def clamp(kind, k):
     return None, 0
 
 
-def extract(dump_path, progs, posmap, stats):
-    """Returns facts[pidx] = list of fact records. stats: dict of counters (updated)."""
+def extract(dump_path, progs, posmap, stats, raw=None, base=0):
+    """Returns facts[pidx] = list of fact records. stats: dict of counters (updated).
+    raw (optional dict): raw[(base + pidx, node)] = list of the value attribute dicts of the token (all value types,
+    used by C04 to see whether an error finding rests on a KNOWN value)."""
     toks, vals = parse_dump(dump_path)
     byid = {t["id"]: t for t in toks}
     facts = [[] for _ in progs]
@@ -123,6 +125,8 @@ def extract(dump_path, progs, posmap, stats):
         pidx, nid = m
         prog = progs[pidx]
         node = prog["nodes"][nid - 1]
+        if raw is not None:
+            raw[(base + pidx, nid)] = [dict(v) for v in vals.get(vid, [])]
         par0 = pars[pidx].get(nid, 0)
         if par0 and prog["nodes"][par0 - 1]["k"] == "asg" and prog["nodes"][par0 - 1]["op"] == "=" and prog["nodes"][par0 - 1]["a"] == nid:
             bump("values_on_assigned_lvalue_skipped")      # the left side of `=` is written, not read
